@@ -543,3 +543,23 @@ Proof.
   rewrite firstn_all in Hs. rewrite Hs; [reflexivity|].
   apply serialize_binary_prefix in H as [t ->]. cbn [length]. lia.
 Qed.
+
+(* ---- the mesh equality used by the run-time checker decides equality ---- *)
+
+Lemma etype_eqb_eq a b : etype_eqb a b = true <-> a = b.
+Proof. destruct a, b; cbn; split; congruence. Qed.
+
+Lemma block_eqb_eq a b : block_eqb a b = true <-> a = b.
+Proof.
+  destruct a as [t1 n1 r1], b as [t2 n2 r2]. unfold block_eqb. cbn [b_ty b_nodes b_refs].
+  rewrite !andb_true_iff, etype_eqb_eq, (leqb_eq N.eqb N.eqb_eq), (leqb_eq Z.eqb Z.eqb_eq).
+  split; [intros [[-> ->] ->]; reflexivity|intros [= -> -> ->]; auto].
+Qed.
+
+Lemma mesh_eqb_eq a b : mesh_eqb a b = true <-> a = b.
+Proof.
+  destruct a as [d1 c1 r1 t1], b as [d2 c2 r2 t2]. unfold mesh_eqb. cbn [m_dim m_coords m_nrefs m_topo].
+  rewrite !andb_true_iff, N.eqb_eq, (leqb_eq N.eqb N.eqb_eq), (leqb_eq Z.eqb Z.eqb_eq),
+    (leqb_eq block_eqb block_eqb_eq).
+  split; [intros [[[-> ->] ->] ->]; reflexivity|intros [= -> -> -> ->]; auto].
+Qed.
